@@ -392,7 +392,7 @@ pub fn random_sat_op<R: RngCore>(b: &mut Builder, rng: &mut R, cfg: &GenCfg, roo
                 }
             }
         }
-        91..=93 if cfg.ecc_fixed && cfg.heavy && room >= 700 => {
+        91..=93 if cfg.ecc_fixed && cfg.heavy && room >= 400 => {
             let s = JubJubScalar::from(rng.next_u64());
             let s = if rng.next_u32() % 3 == 0 { -s } else { s };
             let reg = b.witness(BlsScalar::from(s));
@@ -478,6 +478,15 @@ pub fn filler(b: &mut Builder, rng: &mut impl RngCore) {
 /// (target_rows >= 4, the composer's own prelude).
 pub fn random_program<R: RngCore>(rng: &mut R, cfg: &GenCfg, target_rows: usize) -> Builder {
     let mut b = Builder::new();
+    // a program that is allowed the heavy components and has the room always
+    // starts with one fixed-base multiplication, so every gate family occurs
+    if cfg.heavy && cfg.ecc_fixed && target_rows >= 450 {
+        let s = JubJubScalar::from(rng.next_u64());
+        let reg = b.witness(BlsScalar::from(s));
+        b.push(Op::MulGenerator(reg, GENERATOR_EXTENDED)).unwrap();
+        let q = b.last_p();
+        b.sub_points.push(q);
+    }
     let mut guard = 0;
     while b.rows() < target_rows && guard < 200_000 {
         guard += 1;
